@@ -226,7 +226,11 @@ func (o *Oracle) Models(n int, p []Lin) []string {
 	if a == "wf-error" || a == "bad-op" {
 		panic("oracle models: " + a)
 	}
-	return strings.Fields(a)
+	fs := strings.Fields(a)
+	for i := range fs {
+		fs[i] = strings.TrimPrefix(fs[i], "m")
+	}
+	return fs
 }
 
 func (o *Oracle) Entails(n int, p []Lin, c Lin) bool {
